@@ -61,6 +61,8 @@ pub enum PAct {
     Listen,
     Handshake(usize),
     Connect,
+    /// the peer accepts one of the connections queued ahead of the application's: room in its accept queue
+    AcceptOne,
     Write(usize),
     Close,
     Read(usize),
@@ -72,6 +74,11 @@ pub struct Peer {
     pub will_listen: bool,
     /// TCP: SYNs are never answered
     pub blackhole: bool,
+    /// unix: the listener's accept queue is full (non-blocking connect answers EAGAIN) until the peer accepts one
+    pub backlog_full: bool,
+    /// a third process shares the application's descriptor and wins the race after a wake-up, once
+    pub thief: bool,
+    pub stolen: bool,
     pub connects_left: u32,
     pub to_write: Vec<u8>,
     pub written: usize,
@@ -182,6 +189,8 @@ pub struct World {
     pub cloexec: Vec<bool>,
     /// per descriptor: the readiness (POLLIN / POLLOUT) the last would-block answer makes the caller wait for, 0 = none
     pub need: Vec<i16>,
+    /// per descriptor: the last ppoll reported it ready and no call has used that yet
+    pub ready: Vec<bool>,
     /// a ppoll whose requested events are not what the blocked operation needs: (operation, requested, needed)
     pub wrong_events: Option<(String, i16, i16)>,
     /// the application is stuck for ever: in a blocking-mode call sleeping in the kernel, or in a ppoll without time-out
@@ -236,6 +245,7 @@ impl World {
             nb: Vec::with_capacity(4),
             cloexec: Vec::with_capacity(4),
             need: Vec::with_capacity(4),
+            ready: Vec::with_capacity(4),
             wrong_events: None,
             stuck: None,
             halted: false,
@@ -292,6 +302,9 @@ impl World {
 
     /// the call on descriptor `i` answered "would block": the readiness its caller has to wait for
     fn note_need(&mut self, i: usize, ret: i64, ev: i16) {
+        if i < self.ready.len() {
+            self.ready[i] = false;
+        }
         let blocked = ret == neg(libc::EAGAIN) || ret == neg(libc::EINPROGRESS) || ret == neg(libc::EALREADY);
         if i < self.need.len() {
             self.need[i] = if blocked { ev } else { 0 };
@@ -377,6 +390,7 @@ impl World {
         self.socks.push(s);
         self.nb.push(nonblock || !self.menu.blocking_sleeps);
         self.need.push(0);
+        self.ready.push(false);
         FD_BASE + (self.socks.len() as i32 - 1)
     }
 
@@ -411,6 +425,9 @@ impl World {
         let p = &self.peer;
         if p.will_listen && !p.listening {
             out.push(PAct::Listen);
+        }
+        if p.listening && p.backlog_full {
+            out.push(PAct::AcceptOne);
         }
         if p.listening && !p.blackhole {
             if let Some(i) = self.conns.iter().position(|c| c.state == CState::SynSent) {
@@ -448,6 +465,7 @@ impl World {
         self.ev.push(Ev::Peer(a));
         match a {
             PAct::Listen => self.peer.listening = true,
+            PAct::AcceptOne => self.peer.backlog_full = false,
             PAct::Handshake(i) => self.conns[i].state = CState::Established,
             PAct::Connect => {
                 if let Some(li) = self.app_listener() {
@@ -709,18 +727,22 @@ impl World {
                         self.refused += 1;
                         return neg(libc::ECONNREFUSED);
                     }
-                    // default: queued on the listener at once; alternative (one deviation, once):
-                    // the backlog is full -> EAGAIN; room is made before the retry
-                    if self.menu.unix_connect_eagain && !eagain_given {
-                        let c = self.choose(2, 0b10);
-                        if c == 1 {
-                            self.socks[i] = Sock::Fresh { eagain_given: true };
-                            if self.nb[i] {
-                                self.eagains += 1;
-                                return neg(libc::EAGAIN);
-                            }
-                            // blocking mode: the caller sleeps until there is room in the backlog
+                    // accept queue full (witnessed on the real kernel): a non-blocking connect answers EAGAIN — every time,
+                    // until the peer has accepted one of the queued connections; the unconnected socket polls writable at once
+                    let _ = eagain_given;
+                    let mut slept = false;
+                    while self.peer.backlog_full {
+                        if self.nb[i] || !self.menu.unix_connect_eagain {
+                            self.eagains += 1;
+                            return neg(libc::EAGAIN);
+                        }
+                        // blocking mode: the caller sleeps until there is room in the backlog
+                        if !slept {
+                            slept = true;
                             self.kernel_sleeps += 1;
+                        }
+                        if !self.kernel_wait(libc::SYS_connect) {
+                            return neg(libc::EBADF);
                         }
                     }
                     let id = self.new_conn(CState::Established);
@@ -785,6 +807,17 @@ impl World {
     }
 
     fn accept4(&mut self, i: usize, a: &[u64; 6]) -> i64 {
+        if self.phase == Phase::Measured && self.peer.thief && !self.peer.stolen && self.ready[i] && self.nb[i] {
+            // a third process that shares the listener was woken too and took the connection
+            if let Sock::Listener { pending } = &mut self.socks[i] {
+                if pending.pop_front().is_some() {
+                    self.peer.stolen = true;
+                    self.ev.push(Ev::Note("a third process sharing the descriptor won the race for the connection"));
+                    self.eagains += 1;
+                    return neg(libc::EAGAIN);
+                }
+            }
+        }
         let mut slept = false;
         let popped = loop {
             let popped = match &mut self.socks[i] {
@@ -849,6 +882,14 @@ impl World {
         };
         if len == 0 {
             return 0;
+        }
+        if self.phase == Phase::Measured && self.peer.thief && !self.peer.stolen && self.ready[i] && self.nb[i] && !self.conns[ci].p2a.is_empty() {
+            // a third process that shares the stream was woken too and read the bytes
+            self.conns[ci].p2a.clear();
+            self.peer.stolen = true;
+            self.ev.push(Ev::Note("a third process sharing the descriptor won the race for the queued bytes"));
+            self.eagains += 1;
+            return neg(libc::EAGAIN);
         }
         let mut slept = false;
         let avail = loop {
@@ -974,6 +1015,9 @@ impl World {
         loop {
             let rev = self.revents(fd, events);
             if rev != 0 {
+                if let Some(i) = self.sock_idx(fd) {
+                    self.ready[i] = true;
+                }
                 unsafe { (*pfd).revents = rev };
                 // no virtual time passes while the peer acts: the remaining time stays as passed in
                 return 1;
